@@ -210,6 +210,8 @@ func checkC14(c *Ctx) {
 	}
 
 	checkVersionRangeTable(c)
+	c.rule("PASS-root-record", "existence and identity of a version come from its stored root record, not from the node cache", 2)
+	checkRootRecord(c, "PASS-root-record")
 	// the range is re-discovered from storage after a reopen: a failed probe must be an error, not "absent"
 	c.rule("ERR-version-range", "storage errors in the version-range discovery and existence probes are surfaced, not read as 'absent'", 15)
 	{
@@ -475,4 +477,50 @@ func checkLastSaved(c *Ctx) {
 			c.decide("PASS-last-saved", l.fname(fn)+" sets lastSaved on success", pos, bad == nil, "every success return passes the store", "a success return keeps an older lastSaved: Hash() is stale and Rollback() silently returns to an older version")
 		}
 	}
+}
+
+// checkRootRecord (shared by C14, C15, C01): whether a version exists — and
+// which tree it is — is decided by its stored root record, never by what
+// happens to be in the node cache (the cache is not purged by pruning or
+// rollback).  GetImmutable resolves the root through GetRoot on every path
+// that hands out a tree, and GetRoot reads the root record from storage on
+// every path that returns a root.
+func checkRootRecord(c *Ctx, rule string) {
+	l := c.L
+	gi := l.Func("", "*MutableTree.GetImmutable")
+	gr := l.Func("", "*nodeDB.GetRoot")
+	fDB := l.Field("", "nodeDB", "db")
+	if gi == nil || gr == nil || fDB == nil {
+		c.anchorMissing(rule, "GetImmutable / GetRoot / nodeDB.db")
+		return
+	}
+	q := mustState(gi, false, func(in ssa.Instruction) bool { cc := callCommon(in); return cc != nil && predStatic(gr)(cc) }, nil)
+	ok := true
+	var bad *ssa.Return
+	for _, r := range successReturns(gi) {
+		if !q(r) {
+			ok, bad = false, r
+		}
+	}
+	pos := l.pos(gi.Pos())
+	if bad != nil {
+		pos = l.ipos(bad)
+	}
+	c.decide(rule, "GetImmutable resolves the version through its stored root record", pos, ok, "every success return passes GetRoot", "a tree is handed out without consulting the version's root record (e.g. from a cached node): a version deleted by pruning or rollback in this process still loads")
+	isRead := func(in ssa.Instruction) bool {
+		cc := callCommon(in)
+		return cc != nil && cc.IsInvoke() && cc.Method.Name() == "Get" && isLoadOfField(fDB)(cc.Value)
+	}
+	q2 := mustState(gr, false, isRead, nil)
+	ok, bad = true, nil
+	for _, r := range successReturns(gr) {
+		if !q2(r) {
+			ok, bad = false, r
+		}
+	}
+	pos = l.pos(gr.Pos())
+	if bad != nil {
+		pos = l.ipos(bad)
+	}
+	c.decide(rule, "GetRoot reads the root record from storage", pos, ok, "every success return passes db.Get", "GetRoot can answer without reading the root record (e.g. because a node with the root's key is cached): after a rollback that re-commits the version without writes, the erased root is served")
 }
